@@ -13,14 +13,29 @@
                           DoubleWaker is tracked by a second cover predicate (Zero.tcover, invariant ZeroTz.Inv_tz).
    The side condition is needed: without it the statement ([Main.C06_zero_pool_any_script]) is REFUTED by a concrete run of the
    generated tables, see Examples.C06_zero_pool_needs_side_condition_refuted (a task that awaits a later future while the queue is
-   parked in Pending / WaitingForWake is not re-polled by the queue wake-up and nobody runs the queue without a pool thread). *)
-From L2 Require Import Model Wake WakeInv Term Main.
+   parked in Pending / WaitingForWake is not re-polled by the queue wake-up and nobody runs the queue without a pool thread).
+   The statements are about [run T] = [runF code_ffacts T] (Facts.runF_code; Inst.gen_ffacts_code).  Two of the order facts of
+   Model.ffacts are NEEDED for the terminal theorem ([C06_terminal_pool_F F] = its statement for the model with facts F, plus
+   "every actor is done"): with wake_with called before the parked state is written the queue wake-up of a job that was woken
+   during its poll is lost; with a WakeThread waker that unparks only when it found WaitingForUnpark a stale waker of a finished
+   sync caller eats the wake-up of the parked one (Refute.v: concrete terminal runs under the generated tables, >= 1 pool runner,
+   all events fired, an operation started and never finished). *)
+From L2 Require Import Model Wake WakeInv Term Main Refute.
 Theorem C06_wake_invariant_L2 : C06_invariant.
 Proof. exact C06_invariant_main. Qed.
 Theorem C06_terminal_partial_L2 : C06_terminal_pool.
 Proof. exact C06_terminal_main. Qed.
 Theorem C06_zero_pool_L2 : C06_zero_pool_full.
 Proof. exact C06_zero_pool_main. Qed.
+Theorem C06_terminal_with_code_facts_L2 : C06_terminal_pool_F code_ffacts.
+Proof. exact C06_terminal_pool_code. Qed.
+Theorem C06_needs_park_before_wake_refuted_L2 : ~ C06_terminal_pool_F wake_with_before_park.
+Proof. exact C06_terminal_needs_park_before_wake. Qed.
+Theorem C06_needs_unconditional_unpark_refuted_L2 : ~ C06_terminal_pool_F unpark_only_if_parked.
+Proof. exact C06_terminal_needs_unconditional_unpark. Qed.
 Print Assumptions C06_wake_invariant_L2.
 Print Assumptions C06_terminal_partial_L2.
 Print Assumptions C06_zero_pool_L2.
+Print Assumptions C06_terminal_with_code_facts_L2.
+Print Assumptions C06_needs_park_before_wake_refuted_L2.
+Print Assumptions C06_needs_unconditional_unpark_refuted_L2.
